@@ -411,6 +411,14 @@ def classify_known(ctx, model, cfg, A, res, view=None):
         # guard happens to pass, mixes real and complex parts)
         if mixed and tags <= DTYPE_TAGS | {"adjoint"} and tags & DTYPE_TAGS:
             return KNOWN_MIXED
+    if cfg["cls"] == "Derived" and cfg["form"] == "comp" and view is None and tags <= DTYPE_TAGS:
+        with warnings.catch_warnings():
+            warnings.simplefilter("ignore")
+            a = G.build(cfg["a"])
+            b = G.build(cfg["b"])
+        # MatrixOperator(A) @ B builds the composite without the dtype check of ComposedLinearOperator
+        if type(a).__name__ == "MatrixOperator" and np.dtype(a.input_dtype) != np.dtype(b.output_dtype):
+            return KNOWN_MIXED
     return None
 
 
